@@ -15,10 +15,12 @@ import NeumannModel.Paths.AlgoModel
     mst <forest 0|1>                          -> ok <total> <tree count> <weights of the accepted edges> | empty
     kcore <etype|->                           -> ok <node:core,...> (sorted by node) | empty
     triangles <etype|-> <undirected 0|1>      -> ok <count> <node:count,...> (sorted by node) | empty
+    scc <etype|->                             -> ok <n.n;n;...> (members sorted, groups by smallest member) | empty
     edgesof <n> <out|in|both>                 -> ok <sorted edge ids> | nonode <id>
     nbrs <n> <out|in|both> <etype|-> <nodeconds> <edgeconds> -> ok <sorted ids> | nonode <id>
     wpath <s> <t>                             -> ok <cost> n=<ids> e=<ids> | none | neg <edge id> | nonode <id>
     astar <s> <t> <out|in|both>               -> ok <cost> | none      (zero heuristic; cost only)
+    astarcfg <s> <t> <out|in|both> <etype|-> <weighted 0|1> -> ok <cost> | none
     trav <s> <out|in|both> <maxdepth> <etype|-> <nodeconds> <edgeconds> -> ok <sorted ids> | nonode <id>
     vpaths <s> <t> <min> <max> <out|in|both> <etypes|-> <cycles 0|1> <nodeconds> <edgeconds>
                                               -> ok <count> <n.n.n/e.e;...> | nonode <id>
@@ -78,6 +80,13 @@ def showPairs (xs : List (Nat × Nat)) : String :=
   if xs.isEmpty then "-"
   else ",".intercalate ((xs.foldr insertPair []).map fun p => s!"{p.1}:{p.2}")
 
+def insertGroup (x : List Nat) : List (List Nat) → List (List Nat)
+  | [] => [x]
+  | y :: ys => if x.headD 0 ≤ y.headD 0 then x :: y :: ys else y :: insertGroup x ys
+
+def showPartition (gs : List (List Nat)) : String :=
+  ";".intercalate (((gs.map sortNats).foldr insertGroup []).map dots)
+
 def showPaths (ps : List Path) : String :=
   ";".intercalate (ps.map fun p => dots p.nodes ++ "/" ++ dots p.edges)
 
@@ -134,6 +143,9 @@ def pathsStep (g : Graph) (line : String) : Graph × String :=
           let found := triFound g et (u != 0)   -- `triangleCount` = its length, `nodeTriangles` = `cornerCount` of it
           (g, s!"ok {found.length} " ++ showPairs (g.nodes.map fun n => (n.id, cornerCount found n.id)))
       | _, _ => bad
+  | ["scc", et] => match parseOptNat et with
+      | some et => if g.nodes.isEmpty then (g, "empty") else (g, "ok " ++ showPartition (sccComponents g et))
+      | none => bad
   | ["edgesof", n, d] => match n.toNat?, parseDir d with
       | some n, some d => (match edgesOf g d n with
           | some r => (g, "ok " ++ showNats (sortNats r))
@@ -154,6 +166,11 @@ def pathsStep (g : Graph) (line : String) : Graph × String :=
           | some c => (g, s!"ok {c}")
           | none => (g, "none"))
       | _, _, _ => bad
+  | ["astarcfg", s, t, d, et, w] => match s.toNat?, t.toNat?, parseDir d, parseOptNat et, w.toNat? with
+      | some s, some t, some d, some et, some w => (match astarCostCfg g et (w != 0) d s t with
+          | some c => (g, s!"ok {c}")
+          | none => (g, "none"))
+      | _, _, _, _, _ => bad
   | ["trav", s, d, md, et, nc, ec] =>
       match s.toNat?, parseDir d, md.toNat?, parseOptNat et, parseConds nc, parseConds ec with
       | some s, some d, some md, some et, some nc, some ec =>
